@@ -5,6 +5,9 @@ set -u
 COMMITS="$1"; shift
 cd /repo || exit 2
 [ -n "$(git status --porcelain)" ] && { echo "repo not clean"; exit 2; }
+# whatever ends this script, /repo's working tree is restored
+trap 'git -C /repo checkout -- .' EXIT
+trap 'exit 130' INT TERM HUP
 for c in $COMMITS; do git diff "$c~1" "$c" | git apply -R || { git checkout -- .; exit 2; }; done
 for id in "$@"; do /verif/check "$id" quick 2>&1 | grep -E "^VIOLATION|sig=|BUILD" | cut -c1-260; done
 cd /repo && git checkout -- . && git status --porcelain | head -3
